@@ -1,3 +1,4 @@
 import Holpy.C15.Model
-namespace Holpy.C15
-end Holpy.C15
+import Holpy.C15.Proofs.Basic
+import Holpy.C15.Proofs.Trace
+/-! C15 helper lemmas; the parts live in `Holpy/C15/Proofs/*.lean`. -/
